@@ -39,6 +39,10 @@ func dump(fam kv.Family) {
 }
 
 func main() {
+	if len(os.Args) > 1 && os.Args[1] == "e2e" {
+		e2e()
+		return
+	}
 	dir, _ := os.MkdirTemp("", "c03probe")
 	defer os.RemoveAll(dir)
 	store, err := kv.GetStoreManager().CreateStore(dir+"/s", kv.DefaultStoreOption())
